@@ -313,8 +313,13 @@ def _eval_bernsen(case):
     if case['kind'] == 'bernsen':
         r = case['radius']
         if list(se.shape) != [2 * r + 1, 2 * r + 1] or [int(v) for v in se.ravel().tolist()] != core.ints(drv['se']):
+            # the statement does not say which pixels form the "local" neighbourhood of bernsen(f, radius): a circle_se that
+            # differs from the model is a broken correspondence; the rule itself is then judged on the element really used
             f.append(dict(kind='model', key='circle_se-model',
                           detail=dict(radius=r, got=se.astype(int).tolist(), model=drv['se'])))
+            line = (f"c16 kind=gbernsen shape={gen.enc_shape(img.shape)} data={gen.enc_arr(img)} "
+                    f"bshape={gen.enc_shape(se.shape)} bc={gen.enc_arr(se.astype(int))} ct={ct} g2={g2}")
+            drv = core.drive([line])[0]
     model = core.ints(drv['model'])
     pinned = core.ints(drv['pinned'])
     interior = core.ints(drv['interior'])
@@ -568,8 +573,10 @@ def _size_threshold_cases(rng, tier):
         lv = list(range(65535)); rng.shuffle(lv)
         g('uint16', [65535], 'levels-65535', data=lv)
         # 2^24 + 1 pixels in one bin (a float32 accumulator stops counting at 2^24); judged by the Python oracle
+        # (three levels chosen so that the exact optimum T = 1 beats T = 100 by 15 %, while a lower-class count that lost its
+        # last bit - 2^24 instead of 2^24+1, hence 6 instead of 5 pixels above - prefers T = 100)
         out.append(dict(kind='global', dtype='uint8', shape=[2 ** 24 + 1 + 5], pseed=rng.randrange(1 << 30), gen='one-bin-2^24+1',
-                        size='threshold', oracle='python', rle=[[a, 2 ** 24 + 1], [b, 5]]))
+                        size='threshold', oracle='python', rle=[[1, 2 ** 24 + 1], [100, 3], [210, 2]]))
     # gbernsen on a row longer than 65536
     w = 65536 + rng.randint(1, 40)
     row = [rng.randint(0, 255) for _ in range(w)]
